@@ -16,7 +16,7 @@ theorem drainAll_w (w : Cmd → Nat) (rxs : List (Nat × Ring Cmd)) :
     cases alive <;> simp [drainAll, Ring.drain] <;> omega
 
 theorem ChanInv.init : ChanInv Sys.init := by
-  refine ⟨fun w => rfl, ?_, ?_, ?_⟩
+  refine ⟨fun w _ => rfl, ?_, ?_, ?_⟩
   · intro e he
     simp [Sys.init] at he
   · intro cs hcs
@@ -33,22 +33,28 @@ theorem ChanInv.finishCycle {s : Sys} (h : ChanInv s) (kept : List (Nat × Ring 
   have f2 : (s.finishCycle kept buf buf2).1.rxs = kept := rfl
   have f3 : (s.finishCycle kept buf buf2).1.threads = s.threads := rfl
   have f4 : (s.finishCycle kept buf buf2).1.deferred = if s.coll.hasReporter then commitsOf buf2 else [] := rfl
+  have f6 : (s.finishCycle kept buf buf2).1.carried = if s.coll.hasReporter then (s.cycleSplit buf buf2).2 else [] := rfl
   have f5 : (s.finishCycle kept buf buf2).1.g =
       if s.coll.hasReporter then
-        { s.g with consumed := (s.deferred.map Cmd.commit ++ buf ++ buf2.filter (fun c => !c.isCommit)) ++ s.g.consumed,
-                   reported := (cycleProcess id s.coll (s.deferred.map Cmd.commit ++ buf ++ buf2.filter (fun c => !c.isCommit))).2.getD [] ++ s.g.reported }
-      else { s.g with discarded := (s.deferred.map Cmd.commit ++ buf ++ buf2.filter (fun c => !c.isCommit)) ++ buf2.filter Cmd.isCommit ++ s.g.discarded } := rfl
+        { s.g with consumed := s.cycleBatch buf buf2 ++ s.g.consumed,
+                   reported := (cycleProcess id s.coll (s.cycleBatch buf buf2)).2.getD [] ++ s.g.reported }
+      else { s.g with discarded := s.cycleBatch buf buf2 ++ (s.cycleSplit buf buf2).2 ++ buf2.filter Cmd.isCommit ++ s.g.discarded } := rfl
   refine ⟨?_, ?_, ?_, ?_⟩
-  · intro w
-    have e := h.cons w
+  · intro w hw
+    have e := h.cons w hw
     have e1 := hk w
-    have e2 := wsum_filter_split w Cmd.isCommit buf2
+    have e2 : wsum w buf2 = wsum w (s.cycleSplit buf buf2).1 + wsum w (s.cycleSplit buf buf2).2 + wsum w (buf2.filter Cmd.isCommit) := by
+      unfold Sys.cycleSplit
+      exact splitSecond_w hw _ _ _ _ buf2
     have e3 := wsum_commits w buf2
+    have e4 : wsum w (s.cycleBatch buf buf2) = wsum w (s.deferred.map Cmd.commit) + (wsum w s.carried + wsum w buf) + wsum w (s.cycleSplit buf buf2).1 := by
+      simp only [Sys.cycleBatch, wsum_append]
     show _ = cycW w (s.finishCycle kept buf buf2).1.cyc (s.finishCycle kept buf buf2).1.rxs
       + pendW w (s.finishCycle kept buf buf2).1.threads + wsum w ((s.finishCycle kept buf buf2).1.deferred.map Cmd.commit)
+      + wsum w (s.finishCycle kept buf buf2).1.carried
       + Ghost.out w (s.finishCycle kept buf buf2).1.g
-    rw [f1, f2, f3, f4, f5]
-    have e' : wsum w s.g.accepted = cycW w s.cyc s.rxs + pendW w s.threads + wsum w (s.deferred.map Cmd.commit) + Ghost.out w s.g := e
+    rw [f1, f2, f3, f4, f5, f6]
+    have e' : wsum w s.g.accepted = cycW w s.cyc s.rxs + pendW w s.threads + wsum w (s.deferred.map Cmd.commit) + wsum w s.carried + Ghost.out w s.g := e
     cases hr : s.coll.hasReporter <;>
       simp only [if_true, Bool.false_eq_true, if_false, Ghost.out, wsum_append, wsum_nil, List.map_nil] at e' ⊢ <;>
       (have : cycW w none kept = ringsW w kept := rfl) <;>
@@ -64,11 +70,11 @@ theorem ChanInv.withCyc {s : Sys} (h : ChanInv s) (cs' : CycState)
     (hw : ∀ w, cycW w (some cs') s.rxs = cycW w s.cyc s.rxs)
     (hwf : (cs'.phase = .atRx2 ∨ cs'.phase = .atReport) → cs'.todo = []) : ChanInv { s with cyc := some cs' } := by
   refine ⟨?_, h.sig, ?_, h.lost⟩
-  · intro w
-    have e := h.cons w
+  · intro w hadd
+    have e := h.cons w hadd
     have e1 := hw w
     unfold Sys.flow at e
-    show wsum w s.g.accepted = cycW w (some cs') s.rxs + pendW w s.threads + wsum w (s.deferred.map Cmd.commit) + Ghost.out w s.g
+    show wsum w s.g.accepted = cycW w (some cs') s.rxs + pendW w s.threads + wsum w (s.deferred.map Cmd.commit) + wsum w s.carried + Ghost.out w s.g
     omega
   · intro cs hcs hp
     simp only [Option.some.injEq] at hcs
@@ -206,7 +212,7 @@ theorem exec_chan (s : Sys) (t : Nat) (op : Op) (h : ChanInv s) : ChanInv (exec 
     cases op with
     | setReporter c =>
       simp only [exec]
-      refine ⟨fun w => h.cons w, h.sig, h.wf, h.lost⟩
+      refine ⟨fun w hw => h.cons w hw, h.sig, h.wf, h.lost⟩
     | cycle =>
       simp only [exec]
       split
